@@ -45,7 +45,7 @@ fn roundtrip_scenario(dests: Vec<(String, u16)>, slot: Arc<Mutex<Vec<(String, u1
                     return out;
                 }
             };
-            let client = match crate::props::c10::make_client(crate::props::c10::Params { beh: vec![], at_ms: vec![], racing: false, server_settings: true, stall_uplink: false }) {
+            let client = match crate::props::c10::make_client(crate::props::c10::Params { beh: vec![], at_ms: vec![], racing: false, server_settings: true, stall_uplink: false, parked_writer: false }) {
                 Ok(c) => c,
                 Err(e) => {
                     out.viol("harness:client", format!("{e}"));
